@@ -225,6 +225,16 @@ fn simplify_body(b: &BodySpec) -> Vec<BodySpec> {
         c.export = false;
         out.push(c);
     }
+    if let Some(side) = &b.side {
+        let mut c = b.clone();
+        c.side = None;
+        out.push(c);
+        for s in simplify_expr(side) {
+            let mut c = b.clone();
+            c.side = Some(Box::new(s));
+            out.push(c);
+        }
+    }
     for fx in simplify_fx(&b.fx) {
         let mut c = b.clone();
         c.fx = fx;
